@@ -8,7 +8,8 @@ export VERIF_EVIDENCE_DIR=$(mktemp -d)
 cd $REPO || exit 2
 if ! git diff --quiet; then echo "$REPO has local changes; refusing"; exit 2; fi
 git apply "$patch" || { echo "patch does not apply"; exit 2; }
-trap 'git -C $REPO checkout -- . ; git -C $REPO clean -fdq; rm -rf "$VERIF_EVIDENCE_DIR"' EXIT
+# the harness binary the checks leave behind was built with the change applied: rebuild it afterwards
+trap 'git -C $REPO checkout -- . ; git -C $REPO clean -fdq; rm -rf "$VERIF_EVIDENCE_DIR"; (cd $VERIF/harness && GOFLAGS=-mod=mod GOPROXY=off GOSUMDB=off GOTOOLCHAIN=local go build -tags verif -o harness . >/dev/null 2>&1)' EXIT
 for id in "$@"; do
   out=$(cd $VERIF && ./check "$id" 2>/dev/null); rc=$?
   echo "== $id rc=$rc"; echo "$out" | grep -v KNOWN-FINDING | head -3
